@@ -1,7 +1,7 @@
 (* R-level model of Polygon.compute_form_factor_amplitude's line-integral formula (C12):
    complex numbers as pairs, the q != 0 branch as a sum over the edges of the vertex cycle. *)
 From Coq Require Import Reals List.
-Require Import Cox.Num.Ops Cox.Geo.Vec.
+Require Import Cox.Num.Ops Cox.Geo.Vec Cox.Model.Polygon.
 Import ListNotations.
 Local Open Scope R_scope.
 
@@ -25,3 +25,24 @@ Definition edge_term (n q a b : V3) : Cx :=
   cscale c (cmul (0, -1) (cexp_i (- vdot Rops q m))).
 Definition polygon_ff (n q : V3) (V : list V3) : Cx :=
   csum (map (fun p => edge_term n q (fst p) (snd p)) (cpairs V)).
+
+(* ---- Polyhedron.compute_form_factor_amplitude, q != 0 branch: a sum over the faces; each face is handed to the polygon formula with the
+   wave vector projected into the face plane (qpar), multiplied by the phase of the out-of-plane component and by i (q.n) / q^2 ---- *)
+Definition qpar (n q : V3) : V3 := vsub Rops q (vscale Rops (vdot Rops q n) n).
+Definition face_ff (n q : V3) (V : list V3) : Cx :=
+  let qn := vdot Rops q n in
+  let d := vdot Rops n (hd (0, 0, 0) V) in
+  cscale (qn / vdot Rops q q) (cmul (0, 1) (cmul (polygon_ff n (qpar n q) V) (cexp_i (- (qn * d))))).
+Definition polyhedron_ff (q : V3) (F : list (V3 * list V3)) : Cx :=
+  csum (map (fun f => face_ff (fst f) q (snd f)) F).
+
+(* ---- the methods as written, including the orientation factor -sign(signed_area) of the polygon method (the minus sign is part of
+   edge_term); these are the definitions the float-extracted executable runs against the implementation (Extract/ExtractR.v) ---- *)
+Definition polygon_ff_code (n q : V3) (V : list V3) : Cx :=
+  cscale (sgnT Rops (sa_coef Rops n V)) (polygon_ff n (qpar n q) V).
+Definition face_ff_code (n q : V3) (V : list V3) : Cx :=
+  let qn := vdot Rops q n in
+  let d := vdot Rops n (hd (0, 0, 0) V) in
+  cscale (qn / vdot Rops q q) (cmul (0, 1) (cmul (polygon_ff_code n q V) (cexp_i (- (qn * d))))).
+Definition polyhedron_ff_code (q : V3) (F : list (V3 * list V3)) : Cx :=
+  csum (map (fun f => face_ff_code (fst f) q (snd f)) F).
